@@ -157,34 +157,45 @@ def step_class(sp):
     return 'hourly' if dt == 1.0 else ('sub-daily' if dt < 24 else 'daily+')
 
 
-def deviating(fmt, sp, path):
-    """which FRESH reader family departs from what the producer wrote
-    ('m', 'r', 'mr' or 'none'): attributes a disagreement, so that a recorded
-    limitation of one family never hides a defect of the other"""
+def deviating_detail(fmt, sp, path):
+    """per FRESH reader family, how it departs from what the producer wrote:
+    'ok', 'time' (only the time listing differs; step count and every value are
+    the producer's), 'data' (step count or values differ, or the reader raises or
+    does not finish); {} when the truth cannot be computed"""
     try:
         times, arrays = _truth(fmt, sp)
     except BaseException:
-        return '?'
+        return {}
     tb = set(np.asarray(a, 'f4').tobytes() for a in arrays)
-    wrong = ''
+    out = {}
     for fam in 'mr':
         def chk():
             f = open_reader(fam, fmt, path, sp)
-            if times_of(fam, f, fmt) != times:
-                return False
+            try:
+                tok = times_of(fam, f, fmt) == times
+            except Exception:
+                tok = False
             if 'TSTEP' in f.dimensions and len(f.dimensions['TSTEP']) != sp['nt']:
-                return False
+                return 'data'
             for k in data_keys(f):
                 if np.asarray(f.variables[k][...], 'f4').tobytes() not in tb:
-                    return False
-            return True
+                    return 'data'
+            return 'ok' if tok else 'time'
         try:
-            ok, _ = _guard(chk)
+            out[fam], _ = _guard(chk)
         except BaseException:
-            ok = False
-        if not ok:
-            wrong += fam
-    return wrong or 'none'
+            out[fam] = 'data'
+    return out
+
+
+def deviating(fmt, sp, path, detail=None):
+    """which FRESH reader family departs from what the producer wrote
+    ('m', 'r', 'mr' or 'none'): attributes a disagreement, so that a recorded
+    limitation of one family never hides a defect of the other"""
+    d = deviating_detail(fmt, sp, path) if detail is None else detail
+    if not d:
+        return '?'
+    return ''.join(fam for fam in 'mr' if d[fam] != 'ok') or 'none'
 
 
 def select(a, sel):
@@ -502,9 +513,13 @@ def _apply(st, op):
     def viol(inv, detail, **sig):
         sp = sig.pop('about', None) or spec       # the file the finding is about
         pth = sig.pop('about_path', None) or path
+        dd = deviating_detail(fmt, sp, pth)
         full = dict(sig, format=fmt, crosses_year_end=_crosses_year_end(sp),
                     cells_le_3=sp['nx'] * sp['ny'] <= 3, invariant=inv,
-                    step=step_class(sp), fresh_reader_off_truth=deviating(fmt, sp, pth),
+                    step=step_class(sp), fresh_reader_off_truth=deviating(fmt, sp, pth, dd),
+                    # how far the fresh record reader is off: its time listing only,
+                    # or step count / values as well
+                    record_reader_off=dd.get('r', '?'),
                     ends_past_midnight=_ends_past_midnight(sp))
         kn = w.known_match(full)
         if kn is not None:
